@@ -4,7 +4,7 @@
 # (-R: reverse-apply, e.g. to undo a fix commit). Prints each check's verdict lines; removes the copy.
 REV=""
 if [ "$1" = "-R" ]; then REV="-R"; shift; fi
-P="$1"; TIER="$2"; shift 2
+P="$(readlink -f "$1" 2>/dev/null || echo "$1")"; [ -e "$P" ] || P="$1"; TIER="$2"; shift 2
 T=$(mktemp -d /tmp/trial.XXXXXX)
 mkdir -p "$T/repo"
 rsync -a --exclude .git /repo/ "$T/repo/"
